@@ -76,6 +76,14 @@ func c08Cases(tier string, seed int64) []core.Case {
 			}})
 		}
 	}
+	for _, mp := range []int{0, 4} {
+		for _, oldFirst := range []bool{true, false} {
+			mp, oldFirst := mp, oldFirst
+			cases = append(cases, core.Case{ID: fmt.Sprintf("tag-reused-after-tversion/maxpend=%d/old-released-first=%v", mp, oldFirst), Run: func(ctx *core.Ctx) core.Result {
+				return c08TagAfterVersion(ctx, mp, oldFirst)
+			}})
+		}
+	}
 	cases = append(cases, sharedFlushCases("C08", tier)...)
 	return cases
 }
